@@ -1,9 +1,17 @@
 package main
 
-// Concurrency-related semantics: locks, atomics, channels (filled in incrementally).
+// Concurrency inside a per-function deductive framework (DESIGN 2.8):
+//   monitor T.mu  protects f...   invariant I   published P   guarantee G
+// Lock: interference (protected fields havocked under G and P), assume I.  Unlock: assert I.
+// Every write to a protected field while the lock is held is a visible step: P must hold after it
+// and G must relate the states before and after it.  Lock-free readers (atomic loads, reads of
+// fields that G makes stable) see interference at every such access.
 
 import (
+	"fmt"
+	"go/token"
 	"go/types"
+	"strings"
 
 	"golang.org/x/tools/go/ssa"
 )
@@ -12,20 +20,491 @@ type specialFn func(x *Exec, st *State, ins ssa.Instruction, callee *ssa.Functio
 
 var specials = map[string]specialFn{}
 
-func (x *Exec) heldCheck(st *State, p PtrV, ins ssa.Instruction, write bool)             {}
-func (x *Exec) heldCheckAddr(st *State, addr ssa.Value, ins ssa.Instruction, write bool) {}
-func (x *Exec) heldCheckMap(st *State, m ssa.Value, ins ssa.Instruction, write bool)     {}
+func init() {
+	specials["(*sync.Mutex).Lock"] = func(x *Exec, st *State, ins ssa.Instruction, c *ssa.Function, a []Value) (Value, bool) {
+		x.lockOp(st, ins, a[0], "lock")
+		return nil, true
+	}
+	specials["(*sync.Mutex).Unlock"] = func(x *Exec, st *State, ins ssa.Instruction, c *ssa.Function, a []Value) (Value, bool) {
+		x.lockOp(st, ins, a[0], "unlock")
+		return nil, true
+	}
+	specials["(*sync.Mutex).TryLock"] = func(x *Exec, st *State, ins ssa.Instruction, c *ssa.Function, a []Value) (Value, bool) {
+		return x.tryLock(st, ins, a[0]), true
+	}
+	specials["sync/atomic.LoadUint32"] = func(x *Exec, st *State, ins ssa.Instruction, c *ssa.Function, a []Value) (Value, bool) {
+		return x.atomicLoad(st, ins, a[0], types.Typ[types.Uint32]), true
+	}
+	specials["sync/atomic.StoreUint32"] = func(x *Exec, st *State, ins ssa.Instruction, c *ssa.Function, a []Value) (Value, bool) {
+		x.atomicStore(st, ins, a[0], a[1], types.Typ[types.Uint32])
+		return nil, true
+	}
+	specials["sync/atomic.LoadInt32"] = func(x *Exec, st *State, ins ssa.Instruction, c *ssa.Function, a []Value) (Value, bool) {
+		return x.atomicLoad(st, ins, a[0], types.Typ[types.Int32]), true
+	}
+	specials["sync/atomic.StoreInt32"] = func(x *Exec, st *State, ins ssa.Instruction, c *ssa.Function, a []Value) (Value, bool) {
+		x.atomicStore(st, ins, a[0], a[1], types.Typ[types.Int32])
+		return nil, true
+	}
+	specials["(*sync.Cond).Wait"] = func(x *Exec, st *State, ins ssa.Instruction, c *ssa.Function, a []Value) (Value, bool) {
+		x.condWait(st, ins, a[0])
+		return nil, true
+	}
+	specials["(*sync.Cond).Broadcast"] = func(x *Exec, st *State, ins ssa.Instruction, c *ssa.Function, a []Value) (Value, bool) {
+		st.Events = append(st.Events, "broadcast")
+		return nil, true
+	}
+	specials["(*sync.Cond).Signal"] = func(x *Exec, st *State, ins ssa.Instruction, c *ssa.Function, a []Value) (Value, bool) {
+		st.Events = append(st.Events, "broadcast")
+		return nil, true
+	}
+	specials["sync.NewCond"] = func(x *Exec, st *State, ins ssa.Instruction, c *ssa.Function, a []Value) (Value, bool) {
+		// the condition variable remembers its locker: box the lock pointer
+		id := st.freshID()
+		x.condLock[id] = a[0]
+		return Scalar{id, c.Signature.Results().At(0).Type()}, true
+	}
+}
 
-func (x *Exec) heldTerm(env *Env, e *Expr) *Term {
-	x.fail("held() not available yet")
+// monObj identifies a monitor instance: the struct that contains the lock.
+type monObj struct {
+	ref  *Term
+	root string // heap root of the containing struct
+	ty   types.Type
+	mon  *MonitorSpec
+}
+
+func (m monObj) key() string { return fmt.Sprintf("%s@%d", m.root, m.ref.id) }
+
+func (x *Exec) monitorOfType(t types.Type) *MonitorSpec {
+	n, ok := t.(*types.Named)
+	if !ok {
+		if p, ok := t.(*types.Pointer); ok {
+			return x.monitorOfType(p.Elem())
+		}
+		return nil
+	}
+	o := n.Origin().Obj()
+	if o.Pkg() == nil {
+		return nil
+	}
+	for _, m := range x.P.CS.Monitors {
+		if m.Pkg == o.Pkg().Path() && m.Type == o.Name() {
+			return m
+		}
+	}
 	return nil
 }
 
-func (x *Exec) exitChecks(st *State, env *Env, ret *ssa.Return) {}
+// lockOwner maps a pointer to a lock field (&obj.mu) to the monitor object.
+func (x *Exec) lockOwner(st *State, lockPtr Value) (monObj, string, bool) {
+	p, ok := lockPtr.(PtrV)
+	if !ok || p.Ref == nil {
+		return monObj{}, "", false
+	}
+	i := strings.LastIndex(p.Root, ".")
+	if i < 0 {
+		return monObj{}, "", false
+	}
+	root, field := p.Root[:i], p.Root[i+1:]
+	ty := x.rootType(root)
+	if ty == nil {
+		return monObj{ref: p.Ref, root: root}, field, true
+	}
+	mon := x.monitorOfType(ty)
+	if mon != nil && mon.Lock != field {
+		mon = nil
+	}
+	return monObj{ref: p.Ref, root: root, ty: ty, mon: mon}, field, true
+}
+
+// rootType resolves a heap root like "pkg.T.f.g" to the Go type of that location.
+func (x *Exec) rootType(root string) types.Type {
+	// find the longest prefix that names a type
+	parts := strings.Split(root, ".")
+	for cut := len(parts); cut >= 2; cut-- {
+		pkgType := strings.Join(parts[:cut], ".")
+		j := strings.LastIndex(pkgType, ".")
+		pkgPath, tn := pkgType[:j], pkgType[j+1:]
+		pk := x.P.ByPath[pkgPath]
+		if pk == nil {
+			continue
+		}
+		o := pk.Types.Scope().Lookup(tn)
+		if o == nil {
+			continue
+		}
+		t := o.Type()
+		okPath := true
+		for _, f := range parts[cut:] {
+			st, ok := t.Underlying().(*types.Struct)
+			if !ok {
+				okPath = false
+				break
+			}
+			found := false
+			for k := 0; k < st.NumFields(); k++ {
+				if st.Field(k).Name() == f {
+					t = st.Field(k).Type()
+					found = true
+				}
+			}
+			if !found {
+				okPath = false
+				break
+			}
+		}
+		if okPath {
+			return t
+		}
+	}
+	return nil
+}
+
+func (x *Exec) monEnv(st, old *State, m monObj) *Env {
+	self := PtrV{Ref: m.ref, Root: m.root, HTy: m.ty}
+	vars := map[string]Value{"self": self}
+	return &Env{X: x, St: st, Old: old, Vars: vars, OldVars: vars, PkgPath: m.mon.Pkg}
+}
+
+func (x *Exec) fieldType(t types.Type, name string) types.Type {
+	stt, ok := t.Underlying().(*types.Struct)
+	if !ok {
+		return nil
+	}
+	for i := 0; i < stt.NumFields(); i++ {
+		if stt.Field(i).Name() == name {
+			return stt.Field(i).Type()
+		}
+	}
+	return nil
+}
+
+// interfere: other goroutines may have run; protected fields take new values related to the last
+// observed ones by the guarantee G and satisfying the publication invariant P (and I if atLock).
+func (x *Exec) interfere(st *State, m monObj, atLock bool) {
+	if m.mon == nil {
+		return
+	}
+	before := st.snapshot()
+	for _, f := range m.mon.Protects {
+		ft := x.fieldType(m.ty, f)
+		if ft == nil {
+			x.fail("monitor %s: no field %s", m.mon.Type, f)
+		}
+		st.havocHeapAt(m.ref, m.root+"."+f, ft)
+	}
+	// closed state of monitor-owned channels may change too (only towards closed: stated in G)
+	for _, f := range m.mon.Chans {
+		ft := x.fieldType(m.ty, f)
+		chNew := st.heapLoad(m.ref, m.root+"."+f, ft).(Scalar).T
+		st.havocHeapAt(chNew, "chan", tyBool)
+		chOld := before.heapLoad(m.ref, m.root+"."+f, ft).(Scalar).T
+		if chOld != chNew {
+			st.havocHeapAt(chOld, "chan", tyBool)
+		}
+	}
+	env := x.monEnv(st, before, m)
+	for _, c := range m.mon.Guars {
+		st.Assume(x.evalBool(env, c.Expr))
+	}
+	for _, c := range m.mon.Pubs {
+		st.Assume(x.evalBool(env, c.Expr))
+	}
+	for _, c := range m.mon.Relies {
+		st.Assume(x.evalBool(env, c.Expr))
+	}
+	if atLock {
+		for _, c := range m.mon.Invs {
+			st.Assume(x.evalBool(env, c.Expr))
+		}
+	}
+	// axioms about package-level state are facts of every reachable state
+	x.entryAssumptions(st, nil)
+}
+
+// keyIsProtected: the heap key names a monitor-protected field (volatile: exempt from frame conditions).
+func (x *Exec) keyIsProtected(k string) bool {
+	if v, ok := x.protKeys[k]; ok {
+		return v
+	}
+	base := k
+	if i := strings.Index(base, "#"); i >= 0 {
+		base = base[:i]
+	}
+	parts := strings.Split(base, ".")
+	res := false
+	for cut := len(parts) - 1; cut >= 2 && !res; cut-- {
+		ty := x.rootType(strings.Join(parts[:cut], "."))
+		if ty == nil {
+			continue
+		}
+		if mon := x.monitorOfType(ty); mon != nil {
+			for _, f := range mon.Protects {
+				if f == parts[cut] {
+					res = true
+				}
+			}
+		}
+	}
+	if x.protKeys == nil {
+		x.protKeys = map[string]bool{}
+	}
+	x.protKeys[k] = res
+	return res
+}
+
+func (x *Exec) lockOp(st *State, ins ssa.Instruction, lockPtr Value, op string) {
+	m, _, ok := x.lockOwner(st, lockPtr)
+	if !ok {
+		x.note("lock operation on an untracked mutex in %s", FuncName(st.Frame.Fn))
+		return
+	}
+	k := m.key()
+	switch op {
+	case "lock":
+		if st.Held[k] != nil {
+			x.oblige(st, "deadlock", x.anchor(ins, "Lock"), TFalse, "lock is not already held by this goroutine", ins, nil)
+		}
+		st.Events = append(st.Events, "lock:"+m.root)
+		x.interfere(st, m, true)
+		st.Held[k] = TTrue
+		st.monObjs[k] = m
+		st.lockSnap[k] = st.snapshot()
+	case "unlock":
+		if st.Held[k] == nil {
+			x.oblige(st, "held", x.anchor(ins, "Unlock"), TFalse, "unlock of a lock that is held", ins, nil)
+		}
+		x.checkMonitorFree(st, ins, m, "unlock")
+		delete(st.Held, k)
+		st.Events = append(st.Events, "unlock:"+m.root)
+	}
+}
+
+// checkMonitorFree asserts the monitor invariant (and P) at a point where the lock is released.
+func (x *Exec) checkMonitorFree(st *State, ins ssa.Instruction, m monObj, what string) {
+	if m.mon == nil {
+		return
+	}
+	env := x.monEnv(st, st, m)
+	site := x.anchor(ins, what)
+	for i, c := range m.mon.Invs {
+		g := x.evalBool(env, c.Expr)
+		x.oblige(st, "monitor-inv", site+":"+clauseLabel(c, i), g, m.mon.Type+"."+m.mon.Lock+" invariant: "+c.Text, ins, c.Props)
+	}
+}
+
+func (x *Exec) tryLock(st *State, ins ssa.Instruction, lockPtr Value) Value {
+	m, _, ok := x.lockOwner(st, lockPtr)
+	got := Fresh("trylock", SBool)
+	if !ok {
+		return Scalar{got, tyBool}
+	}
+	// fork: acquired / not acquired
+	other := x.fork(st)
+	other.Assume(Not(got))
+	other.Frame.Regs[ins.(ssa.Value)] = Scalar{TFalse, tyBool}
+	other.Trace = append(other.Trace, "trylock:F")
+	other.Frame.PC++
+	x.work = append(x.work, other)
+	st.Assume(got)
+	st.Trace = append(st.Trace, "trylock:T")
+	k := m.key()
+	st.Events = append(st.Events, "lock:"+m.root)
+	x.interfere(st, m, true)
+	st.Held[k] = TTrue
+	st.monObjs[k] = m
+	st.lockSnap[k] = st.snapshot()
+	return Scalar{TTrue, tyBool}
+}
+
+func (x *Exec) condWait(st *State, ins ssa.Instruction, cond Value) {
+	// Wait releases the lock, blocks, re-acquires: invariant asserted, interference, invariant assumed
+	c, ok := cond.(Scalar)
+	if !ok {
+		return
+	}
+	lp, ok := x.condLock[c.T]
+	if !ok {
+		// cond created elsewhere (constructor): find the single held monitor of the receiver type
+		for k, m := range st.monObjs {
+			if st.Held[k] != nil && m.mon != nil {
+				x.checkMonitorFree(st, ins, m, "Wait")
+				x.interfere(st, m, true)
+				st.Events = append(st.Events, "wait:"+m.root)
+			}
+		}
+		return
+	}
+	m, _, ok := x.lockOwner(st, lp)
+	if ok {
+		x.checkMonitorFree(st, ins, m, "Wait")
+		x.interfere(st, m, true)
+		st.Events = append(st.Events, "wait:"+m.root)
+	}
+}
+
+// protectedBy finds the monitor object and field for a heap location, if it is a protected field.
+func (x *Exec) protectedBy(st *State, p PtrV) (monObj, string, bool) {
+	if p.Ref == nil || p.Root == "" {
+		return monObj{}, "", false
+	}
+	// p.Root = <root>.<field>[.<sub>...]; try every split
+	parts := strings.Split(p.Root, ".")
+	for cut := len(parts) - 1; cut >= 2; cut-- {
+		root := strings.Join(parts[:cut], ".")
+		ty := x.rootType(root)
+		if ty == nil {
+			continue
+		}
+		mon := x.monitorOfType(ty)
+		if mon == nil {
+			continue
+		}
+		for _, f := range mon.Protects {
+			if f == parts[cut] {
+				return monObj{ref: p.Ref, root: root, ty: ty, mon: mon}, f, true
+			}
+		}
+	}
+	return monObj{}, "", false
+}
+
+func isAtomicField(mon *MonitorSpec, f string) bool {
+	for _, a := range mon.Atomic {
+		if a == f {
+			return true
+		}
+	}
+	return false
+}
+
+// heldCheck is called for every plain load/store through a heap pointer.
+func (x *Exec) heldCheck(st *State, p PtrV, ins ssa.Instruction, write bool) {
+	m, f, ok := x.protectedBy(st, p)
+	if !ok {
+		return
+	}
+	if x.constructing(st, m) {
+		return
+	}
+	k := m.key()
+	if st.Held[k] != nil {
+		return
+	}
+	if write {
+		x.oblige(st, "held", x.anchor(ins, "write "+f), TFalse,
+			fmt.Sprintf("write to %s.%s requires %s.%s", m.mon.Type, f, m.mon.Type, m.mon.Lock), ins, nil)
+		return
+	}
+	// lock-free read: allowed only if G makes the field stable given what has been observed
+	before := st.snapshot()
+	ft := x.fieldType(m.ty, f)
+	x.interfere(st, m, false)
+	oldV := before.heapLoad(m.ref, m.root+"."+f, ft)
+	newV := st.heapLoad(m.ref, m.root+"."+f, ft)
+	eq := x.valuesEqual(st, oldV, newV, ft)
+	x.oblige(st, "stable-read", x.anchor(ins, "read "+f), eq,
+		fmt.Sprintf("unlocked read of %s.%s: the field is stable (by the guarantee) given what was observed", m.mon.Type, f), ins, nil)
+	st.Assume(eq)
+}
+
+// constructing: the object was allocated by this function invocation and is not yet shared.
+func (x *Exec) constructing(st *State, m monObj) bool {
+	return m.ref.Op == "+" && len(m.ref.Args) == 2 && m.ref.Args[0].Op == "var" && strings.HasPrefix(m.ref.Args[0].Name, "alloc")
+}
+
+func (x *Exec) heldCheckAddr(st *State, addr ssa.Value, ins ssa.Instruction, write bool) {
+	if v, ok := st.Frame.Regs[addr]; ok {
+		if p, ok := v.(PtrV); ok && p.Ref != nil {
+			x.heldCheck(st, p, ins, write)
+		}
+	}
+}
+
+func (x *Exec) heldCheckMap(st *State, m ssa.Value, ins ssa.Instruction, write bool) {}
+
+// afterProtectedWrite: a write to a protected field is a step visible to lock-free readers.
+func (x *Exec) afterProtectedWrite(st, before *State, p PtrV, ins ssa.Instruction) {
+	m, f, ok := x.protectedBy(st, p)
+	if !ok || m.mon == nil || x.constructing(st, m) {
+		return
+	}
+	x.checkStep(st, before, m, ins, "write "+f)
+}
+
+func (x *Exec) checkStep(st, before *State, m monObj, ins ssa.Instruction, what string) {
+	env := x.monEnv(st, before, m)
+	site := x.anchor(ins, what)
+	for i, c := range m.mon.Pubs {
+		g := x.evalBool(env, c.Expr)
+		x.oblige(st, "publish", site+":"+clauseLabel(c, i), g, "publication invariant after this step: "+c.Text, ins, c.Props)
+	}
+	for i, c := range m.mon.Guars {
+		g := x.evalBool(env, c.Expr)
+		x.oblige(st, "guarantee", site+":"+clauseLabel(c, i), g, "two-state guarantee across this step: "+c.Text, ins, c.Props)
+	}
+}
+
+func (x *Exec) atomicLoad(st *State, ins ssa.Instruction, addr Value, ty types.Type) Value {
+	p, ok := addr.(PtrV)
+	if !ok || p.Ref == nil {
+		return x.load(st, addr, ty, ins)
+	}
+	if m, _, ok := x.protectedBy(st, p); ok && st.Held[m.key()] == nil && !x.constructing(st, m) {
+		x.interfere(st, m, false)
+	}
+	return st.heapLoad(p.Ref, p.Root, ty)
+}
+
+func (x *Exec) atomicStore(st *State, ins ssa.Instruction, addr, v Value, ty types.Type) {
+	p, ok := addr.(PtrV)
+	if !ok || p.Ref == nil {
+		x.store(st, addr, ty, v, ins)
+		return
+	}
+	m, f, prot := x.protectedBy(st, p)
+	if prot && st.Held[m.key()] == nil && !x.constructing(st, m) {
+		x.oblige(st, "held", x.anchor(ins, "atomic store "+f), TFalse,
+			fmt.Sprintf("atomic store to %s.%s requires %s.%s", m.mon.Type, f, m.mon.Type, m.mon.Lock), ins, nil)
+	}
+	before := st.snapshot()
+	st.heapStore(p.Ref, p.Root, ty, x.coerce(st, v, ty))
+	if prot {
+		x.checkStep(st, before, m, ins, "atomic store "+f)
+	}
+}
+
+func (x *Exec) heldTerm(env *Env, e *Expr) *Term {
+	v := x.eval(env, e)
+	p, ok := v.(PtrV)
+	if !ok {
+		x.fail("held(): lock expression expected: %s", e)
+	}
+	m, _, ok2 := x.lockOwner(env.St, p)
+	if !ok2 {
+		x.fail("held(): not a lock: %s", e)
+	}
+	if env.St.Held[m.key()] != nil {
+		return TTrue
+	}
+	return TFalse
+}
+
+// exitChecks: no lock may be held at return unless the contract says so.
+func (x *Exec) exitChecks(st *State, env *Env, ret *ssa.Return) {
+	for k := range st.Held {
+		if hasEffect(x.FC, "returns-locked") {
+			continue
+		}
+		x.oblige(st, "held", "exit:"+k, TFalse, "no lock is held at return", ret, nil)
+	}
+}
+
+// ---------------------------------------------------------------------------------------------
+// channels and select (abstracted)
 
 func (x *Exec) doSelect(st *State, i *ssa.Select) bool {
-	x.note("select in %s: abstracted as nondeterministic choice", FuncName(st.Frame.Fn))
-	// fork one path per case (+ default)
 	n := len(i.States)
 	mk := func(s *State, idx int) {
 		var t TupleV
@@ -38,10 +517,22 @@ func (x *Exec) doSelect(st *State, i *ssa.Select) bool {
 			}
 		}
 		s.Frame.Regs[i] = t
+		s.Trace = append(s.Trace, fmt.Sprintf("select:%d", idx))
+		if idx >= 0 {
+			dir := "recv"
+			if i.States[idx].Dir == types.SendOnly {
+				dir = "send"
+			}
+			s.Events = append(s.Events, "select-"+dir)
+		}
 	}
 	cases := n
 	if !i.Blocking {
 		cases = n + 1
+	}
+	if cases == 0 {
+		st.Dead = true
+		return false
 	}
 	for k := 1; k < cases; k++ {
 		o := x.fork(st)
@@ -53,11 +544,11 @@ func (x *Exec) doSelect(st *State, i *ssa.Select) bool {
 		o.Frame.PC++
 		x.work = append(x.work, o)
 	}
-	if cases == 0 {
-		st.Dead = true
-		return false
+	if n == 0 {
+		mk(st, -1)
+	} else {
+		mk(st, 0)
 	}
-	mk(st, 0)
 	return true
 }
 
@@ -74,4 +565,51 @@ func (x *Exec) doRecv(st *State, i *ssa.UnOp) {
 		st.Frame.Regs[i] = v
 	}
 	st.Events = append(st.Events, "recv")
+}
+
+var _ = token.ADD
+
+// monObjOf: the value is a pointer to a struct whose type has a monitor declaration.
+func (x *Exec) monObjOf(st *State, v Value, t types.Type) (monObj, bool) {
+	pt, ok := t.Underlying().(*types.Pointer)
+	if !ok {
+		return monObj{}, false
+	}
+	mon := x.monitorOfType(pt.Elem())
+	if mon == nil {
+		return monObj{}, false
+	}
+	ref, root, _ := x.structPtr(st, v)
+	if ref == nil {
+		return monObj{}, false
+	}
+	m := monObj{ref: ref, root: root, ty: pt.Elem(), mon: mon}
+	if x.constructing(st, m) {
+		return monObj{}, false
+	}
+	return m, true
+}
+
+// postStability: postconditions of methods on monitor objects must survive interference by other
+// goroutines after the method's last synchronisation (otherwise callers could not rely on them).
+func (x *Exec) postStability(st *State, vars map[string]Value, ret *ssa.Return) {
+	if x.Fn.Signature.Recv() == nil || len(x.Fn.Params) == 0 {
+		return
+	}
+	recv := x.Fn.Params[0]
+	m, ok := x.monObjOf(st, x.ParamVals[recv.Name()], recv.Type())
+	if !ok || len(st.Held) > 0 {
+		return
+	}
+	st2 := st.snapshot()
+	st2.Frame = nil
+	x.interfere(st2, m, false)
+	env := &Env{X: x, St: st2, Old: st.Old, Vars: vars, OldVars: x.ParamVals, FC: x.FC, PkgPath: x.Pkg}
+	for i, e := range x.FC.Ensures {
+		if e.Internal {
+			continue
+		}
+		g := x.evalBool(env, e.Expr)
+		x.oblige(st2, "post-stable", clauseLabel(e, i), g, "stable under interference: "+e.Text, ret, e.Props)
+	}
 }
